@@ -13,6 +13,18 @@ VERIF = os.path.dirname(os.path.dirname(os.path.abspath(__file__)))
 PROPS = [json.loads(l)["id"] for l in open(os.path.join(VERIF, "properties.jsonl"))]
 
 
+def caught_by(own, fired):
+    """The checks that are *obliged* to report this change (thorough tier): the property it was written
+    against if that check names a violation; otherwise every check that names one. Checks that fire only
+    with an analysis-error are collateral: they are recorded in checks_fired but not obliged."""
+    named = sorted(p for p, v in fired.items() if any("analysis-error" not in l and "internal-error" not in l and "|floor|" not in l for l in v))
+    if own in named:
+        return [own]
+    if own in fired:
+        return [own]
+    return named
+
+
 def one(name):
     d = os.path.join(VERIF, "seeded", name)
     meta = json.load(open(os.path.join(d, "meta.json")))
@@ -32,6 +44,7 @@ def one(name):
     shutil.rmtree(dst, ignore_errors=True)
     meta["checks_fired"] = fired
     meta["caught_by_own_property"] = meta["property"] in fired
+    meta["caught_by"] = caught_by(meta["property"], fired)
     json.dump(meta, open(os.path.join(d, "meta.json"), "w"), indent=1, ensure_ascii=False)
     return name, fired
 
